@@ -153,7 +153,7 @@ def attrs(s):
     return out
 
 
-def oracle(chk, n=1):
+def oracle(chk, n=1, classes=None):
     from . import _oracle
 
     rng = random.Random(chk.seed + 505)
@@ -161,6 +161,8 @@ def oracle(chk, n=1):
     keys = _oracle.KEYS
     try:
         for cls, lst in cfgs(rng).items():
+            if classes is not None and cls not in classes:
+                continue
             mod = chk.module(MOD.get(cls, "countmin"))
             C = getattr(mod, cls)
             for cfg in lst:
@@ -212,11 +214,43 @@ def oracle(chk, n=1):
                     del t
                     if bad:
                         return {"key": what, "observed": bad, "how": "bounded oracle on the real classes"}
+                    if cls.startswith("CountMin") and not shared:
+                        # the class-specific loaders reject files of another counter type
+                        for other in ("CountMinLinear", "CountMinLog16", "CountMinLog8"):
+                            if other == cls or (classes is not None and other not in classes):
+                                continue
+                            try:
+                                getattr(mod, other).load(fn)
+                                got = "returned a sketch"
+                            except TypeError:
+                                continue
+                            except Exception as e:
+                                got = "raised %s" % type(e).__name__
+                            return {"key": "%s.load(file saved by %s(%s))" % (other, cls, cfg), "observed": got, "expected": "TypeError", "how": "bounded oracle on the real classes"}
     finally:
         for f in os.listdir(tmp):
             os.unlink(os.path.join(tmp, f))
         os.rmdir(tmp)
     return None
+
+
+def part(chk, classes):
+    """the save/load obligations of the given classes, for properties quantified over histories that
+    include a save/load step (C01): the loaded sketch has the same parameters and tables"""
+    ex = glue.make_exec(chk, {("call", "HeavyHitters.generate_candidate_set"): glue._stub_gcs})
+    cache = {}
+
+    def found():
+        if "r" not in cache:
+            cache["r"] = oracle(chk, classes=classes)
+        return cache["r"]
+
+    for cls in classes:
+        try:
+            check_class(chk, ex, cls, found)
+        except X.Unsupported as e:
+            chk.undecided.append((cls + ".save/load", "unsupported construct in glue: %s" % e))
+    chk.assumptions.add("np.savez / np.load round trip: a member read by name equals the array written under that name, with its dtype")
 
 
 def run(chk):
